@@ -47,3 +47,23 @@ package redirect
 //@ func redirParse$1$1
 //@   requires cfg != nil && cfg.TLS != nil
 //@   ensures [scheme_is_read_from_the_site_when_the_rule_is_matched] (cfg.TLS.Enabled ==> result == "https") && (!cfg.TLS.Enabled ==> result == "http")
+
+//@ unit setup_registers frames=on props=C11,C09 nilchecks=on filter=`redirect\.setup$`
+//@ // Every run of this directive's setup (casket runs it once per address of a server block) parses the directive's tokens
+//@ // ITSELF and, when that succeeds, registers exactly one handler for the site - after parsing, so the handler is built from
+//@ // what this very run read; a run whose parse fails registers nothing
+//@ use @verif/specs/stdlib.spec:casket_api
+//@ ghost parsedNow int
+//@ ghost registered int
+//@ func redirParse
+//@   requires c != nil
+//@   modifies ghost:parsedNow
+//@   ensures parsedNow == old(parsedNow) + 1
+//@ extern (*github.com/tmpim/casket/caskethttp/httpserver.SiteConfig).AddMiddleware
+//@   modifies ghost:registered
+//@   ensures registered == old(registered) + 1
+//@ func setup
+//@   requires c != nil && parsedNow == 0 && registered == 0
+//@   modifies ghost:parsedNow, ghost:registered
+//@   at call (*github.com/tmpim/casket/caskethttp/httpserver.SiteConfig).AddMiddleware before [registered_after_this_runs_own_parse] parsedNow == 1
+//@   ensures [one_handler_on_success_none_on_error] parsedNow == 1 && (result == nil ==> registered == 1) && (result != nil ==> registered == 0)
